@@ -294,6 +294,24 @@ func MakeUtxo(sctx *context.StateCtx, metaHandle *meta.Meta, cachesize, tmplockS
 	return utxoVM, nil
 }
 
+// ReloadUtxoTotal re-reads the total from storage. UpdateUtxoTotal moves the in-memory
+// total when a transaction is put into a batch; if that batch is never written the
+// in-memory value has to go back to what is stored.
+func (uv *UtxoVM) ReloadUtxoTotal() error {
+	utxoTotalBytes, findTotalErr := uv.metaHandle.MetaTable.Get([]byte(UTXOTotalKey))
+	if findTotalErr != nil {
+		if def.NormalizedKVError(findTotalErr) != def.ErrKVNotFound {
+			return findTotalErr
+		}
+		uv.utxoTotal = big.NewInt(0)
+		return nil
+	}
+	total := big.NewInt(0)
+	total.SetBytes(utxoTotalBytes)
+	uv.utxoTotal = total
+	return nil
+}
+
 func (uv *UtxoVM) UpdateUtxoTotal(delta *big.Int, batch kvdb.Batch, inc bool) {
 	if inc {
 		uv.utxoTotal = uv.utxoTotal.Add(uv.utxoTotal, delta)
